@@ -65,11 +65,17 @@ func (g *graphGen) add(sp BSpec) int {
 
 func (g *graphGen) chunk(tag string) int {
 	n := g.r.Range(12, 60)
+	head := "secret-" + tag + "-" + g.salt + "-"
+	if g.r.Bool(0.12) {
+		// a chunk whose size is a power of two, or one byte off: buffer and
+		// threshold boundaries of the handlers that serve it
+		n = []int{4096, 32768, 65536}[g.r.Intn(3)] + g.r.Intn(3) - 1 - len(head)
+	}
 	pad := make([]byte, n)
 	for i := range pad {
 		pad[i] = "abcdefghijklmnopqrstuvwxyz"[g.r.Intn(26)]
 	}
-	return g.add(BSpec{Kind: kChunk, Text: "secret-" + tag + "-" + g.salt + "-" + string(pad), Ref: -1})
+	return g.add(BSpec{Kind: kChunk, Text: head + string(pad), Ref: -1})
 }
 
 func pick[T any](r *simcore.Rand, xs []T) T { return xs[r.Intn(len(xs))] }
@@ -168,7 +174,9 @@ func genGraph(r *simcore.Rand) *ShareCfg {
 	budget += reserve
 	// shares
 	var shares []int
-	expChoices := []int{0, 0, 0, -90, 150, 150, 320, 600}
+	// (minutes after 2000-01-01: -15778080 is 1970-01-01T00:00:00Z, the zero
+	// of Unix time - long past, but not "no expiry")
+	expChoices := []int{0, 0, 0, -90, 150, 150, 320, 600, -15778080}
 	for i := 0; i < nShare && budget > 0; i++ {
 		budget--
 		sp := BSpec{Kind: kShare, Transitive: r.Bool(0.7), ExpMin: pick(r, expChoices), DateS: 100 + 10*i}
